@@ -349,6 +349,11 @@ type op struct {
 	text    string
 	empty   bool // didChange with an empty contentChanges array
 	earlier []string // didChange: full-text changes preceding the final one in the same notification
+	// didChange sent as a ranged edit of the previous content (only when the server's
+	// initialize result announced incremental synchronisation)
+	incr     bool
+	incrRng  rng
+	incrText string
 	pos     pos
 	target  any // cancel target
 	frame   []byte
@@ -375,6 +380,9 @@ func (o *op) describe() string {
 		}
 		if len(o.earlier) > 0 {
 			d += fmt.Sprintf(" batched-after-%d-earlier-changes", len(o.earlier))
+		}
+		if o.incr {
+			d += fmt.Sprintf(" as-edit[%d:%d-%d:%d]+%dB", o.incrRng.Start.Line, o.incrRng.Start.Character, o.incrRng.End.Line, o.incrRng.End.Character, len(o.incrText))
 		}
 	case opDidClose, opDidSave:
 		d += " " + o.uri
@@ -433,7 +441,13 @@ func (o *op) build() {
 		for _, t := range o.earlier {
 			changes = append(changes, obj{"text": t})
 		}
-		changes = append(changes, obj{"text": o.text})
+		if o.incr {
+			changes = append(changes, obj{"range": obj{
+				"start": obj{"line": o.incrRng.Start.Line, "character": o.incrRng.Start.Character},
+				"end":   obj{"line": o.incrRng.End.Line, "character": o.incrRng.End.Character}}, "text": o.incrText})
+		} else {
+			changes = append(changes, obj{"text": o.text})
+		}
 		if o.empty {
 			changes = []obj{}
 		}
@@ -792,6 +806,7 @@ func genDoc(src *sim.Src, prev string) string {
 // script generation + sequential reference model
 
 type script struct {
+	initialized bool // the script starts with initialize: the negotiated capabilities apply
 	ops   []*op
 	diags []*expDiag
 	calls map[string]*op // by canonical id
@@ -855,6 +870,7 @@ func genScript(src *sim.Src) *script {
 			folders = src.Draw(3)
 		}
 		add(&op{kind: opInitialize, id: 1, version: folders})
+		sc.initialized = true
 		if src.Chance(1, 3) {
 			add(&op{kind: opInitialized})
 		}
@@ -909,6 +925,12 @@ func genScript(src *sim.Src) *script {
 			}
 			o.text = genDoc(src, lastText[uri])
 			lastText[uri] = o.text
+			if kind == opDidChange && d != nil && len(o.earlier) == 0 && negotiatedSync == 2 && sc.initialized && src.Chance(3, 4) {
+				// the server announced incremental synchronisation: a conforming client sends
+				// the difference between the previous content and the new one
+				o.incr = true
+				o.incrRng, o.incrText = editBetween(d.text, o.text)
+			}
 			add(o)
 			docs[uri] = &modelDoc{version: v, text: o.text}
 			sc.diags = append(sc.diags, &expDiag{uri: uri, version: v, text: o.text, opIndex: len(sc.ops) - 1})
@@ -997,6 +1019,90 @@ func genScript(src *sim.Src) *script {
 		}
 	}
 	return sc
+}
+
+// negotiatedSync is the text document synchronisation kind the server announces in its
+// initialize result (0 none, 1 full, 2 incremental; -1 unknown), read once per process from
+// a real initialize exchange. The simulated client honours it the way an editor does.
+var negotiatedSync = -1
+
+// editBetween returns the single ranged edit that turns old into new: the range of old
+// between the longest common prefix and suffix (cut at character boundaries), in UTF-16
+// positions, and the replacement text.
+func editBetween(old, new string) (rng, string) {
+	p := 0
+	for p < len(old) && p < len(new) && old[p] == new[p] {
+		p++
+	}
+	for p > 0 && (p < len(old) && !utf8.RuneStart(old[p]) || p < len(new) && !utf8.RuneStart(new[p])) {
+		p--
+	}
+	so, sn := len(old), len(new)
+	for so > p && sn > p && old[so-1] == new[sn-1] {
+		so--
+		sn--
+	}
+	for so < len(old) && !utf8.RuneStart(old[so]) {
+		so++
+		sn++
+	}
+	sl, sc := offsetToPos(old, p)
+	el, ec := offsetToPos(old, so)
+	return rng{pos{sl, sc}, pos{el, ec}}, new[p:sn]
+}
+
+func probeSyncKind(t *testing.T) (kind int) {
+	kind = -1
+	defer func() { recover() }()
+	synctest.Test(t, func(t *testing.T) {
+		in := &simIn{ch: make(chan []byte, 1), closed: make(chan struct{})}
+		out := &simOut{tornAt: -1}
+		zzStdin, zzStdout = in, out
+		jsonrpc2.VerifBeforeWrite = nil
+		jsonrpc2.VerifWrapCtx = nil
+		done := make(chan struct{})
+		go func() {
+			startLS(context.Background(), nil)
+			close(done)
+		}()
+		synctest.Wait()
+		o := &op{kind: opInitialize, id: 1, version: 1}
+		extraHeader = false
+		o.build()
+		in.ch <- o.frame
+		synctest.Wait()
+		out.mu.Lock()
+		data := append([]byte(nil), out.data...)
+		out.mu.Unlock()
+		frames, _, _ := parseFrames(data)
+		for _, f := range frames {
+			var m struct {
+				ID     json.RawMessage `json:"id"`
+				Result struct {
+					Capabilities struct {
+						Sync json.RawMessage `json:"textDocumentSync"`
+					} `json:"capabilities"`
+				} `json:"result"`
+			}
+			if json.Unmarshal(f, &m) != nil || len(m.Result.Capabilities.Sync) == 0 {
+				continue
+			}
+			var n int
+			var ob struct {
+				Change int `json:"change"`
+			}
+			if json.Unmarshal(m.Result.Capabilities.Sync, &n) == nil {
+				kind = n
+			} else if json.Unmarshal(m.Result.Capabilities.Sync, &ob) == nil {
+				kind = ob.Change
+			}
+		}
+		close(in.ch)
+		in.Close()
+		synctest.Wait()
+		<-done
+	})
+	return kind
 }
 
 // isSymbolName: Textmapper identifiers are plain names (dashes allowed inside) or
@@ -1598,6 +1704,12 @@ func (e *lsEngine) Run(src *sim.Src, log *sim.Log, res *sim.Result) {
 		names = append(names, o.describe())
 	}
 	log.Printf("script: %s", strings.Join(names, " | "))
+	res.Probe(fmt.Sprintf("negotiated-sync-kind:%d", negotiatedSync))
+	for _, o := range sc.ops {
+		if o.incr {
+			res.Probe("client-sent-ranged-edit")
+		}
+	}
 
 	// per-run knobs (swarm)
 	faultsOn := src.Chance(45, 100)
@@ -2135,5 +2247,7 @@ func TestZZLSSim(t *testing.T) {
 	if devnull, err := os.OpenFile(os.DevNull, os.O_WRONLY, 0); err == nil {
 		os.Stderr = devnull // zap's development logger writes there
 	}
+	negotiatedSync = probeSyncKind(t)
+	logBuf.Reset()
 	sim.Main(&lsEngine{t: t}, flag.Args())
 }
